@@ -1,19 +1,37 @@
 #!/bin/sh
-# usage: ./run.sh [number of random samples, default 60]
-# Regenerates samples.v from main.go, evaluates the Coq model on every sample and
-# compares it with the bytes produced by Go (comparison done inside Coq by first_diff).
+# usage: ./run.sh [number of random samples, default 60] [number of Coq files, default 8]
+# Regenerates samples_*.v from main.go, evaluates the Coq models (whole page: Model/HtmlPage.v,
+# content region: Model/HtmlDoc.v) on every sample and compares them with the bytes produced
+# by Go (comparison done inside Coq by first_diff).  Works in the directory of the script;
+# COQ=<dir with theories/> (default ../../coq) must have Model/HtmlPage.vo compiled.
 set -e
+ulimit -s unlimited 2>/dev/null || ulimit -s 1000000 2>/dev/null || true
 export GOFLAGS=-mod=mod GOPROXY=off GOSUMDB=off GOTOOLCHAIN=local
-cd /tmp/htmldoc
+HERE=$(cd "$(dirname "$0")" && pwd)
+COQ=${COQ:-$HERE/../../coq}
+cd "$HERE"
 go build -o htmldoc .
-./htmldoc gen "${1:-60}"
-cd /verif/coq
-# needs theories/Model/HtmlDoc.vo (coqc -Q theories PP theories/Model/HtmlDoc.v)
-coqc -Q theories PP -Q /tmp/htmldoc HD /tmp/htmldoc/samples.v > /tmp/htmldoc/coq_out.txt 2>&1 || { tail -20 /tmp/htmldoc/coq_out.txt; exit 1; }
-total=$(grep -c '^Eval vm_compute' /tmp/htmldoc/samples.v)
-equal=$(grep -c 'string, None)' /tmp/htmldoc/coq_out.txt || true)
-echo "samples: $total   equal: $equal"
-if [ "$total" != "$equal" ]; then
-  python3 /tmp/htmldoc/diff.py
+./htmldoc gen "${1:-60}" "${2:-8}"
+coqc -Q "$COQ/theories" PP -Q "$HERE" HD samples_common.v
+rm -f coq_out_*.txt
+pids=""
+for f in samples_[0-9]*.v; do
+  ( coqc -Q "$COQ/theories" PP -Q "$HERE" HD "$f" > "coq_out_${f%.v}.txt" 2>&1 || echo "COQC FAILED $f" >> "coq_out_${f%.v}.txt" ) &
+  pids="$pids $!"
+done
+wait $pids
+cat coq_out_samples_*.txt > coq_out.txt
+if grep -q "COQC FAILED\|^Error" coq_out.txt; then grep -n "COQC FAILED\|Error" -A5 coq_out.txt | head -30; exit 1; fi
+for kind in page region; do
+  total=$(cat samples_[0-9]*.v | grep -c "^Eval vm_compute in (\"$kind\"")
+  equal=$(tr '\n' ' ' < coq_out.txt | sed 's/     = (/\n= (/g' | grep -c "^= (\"$kind\"%string, \"[A-Za-z0-9_]*\"%string, None)" || true)
+  echo "$kind: samples: $total   equal: $equal"
+  [ "$total" = "$equal" ] || bad=1
+done
+if [ -n "$bad" ]; then
+  rm -f samples_*.vo samples_*.vok samples_*.vos samples_*.glob .samples_*.aux
+  python3 "$HERE/diff.py"
   exit 1
 fi
+# the compiled samples are large; the sources (samples_*.v) and coq_out.txt stay for inspection
+rm -f samples_*.vo samples_*.vok samples_*.vos samples_*.glob .samples_*.aux
